@@ -178,10 +178,14 @@ PruneConfluent ==
             /\ CondClauses(desc, prob, rstrat, prune, NodesObs(desc, nodes)) = {}
 
 \* C03: cleared states are never reachable from the initial state
+\* ("cleared" = emptied by the clear-unreferenced loop, not by the removal of dead branches: a final state
+\*  that is not absorbing and only leads into dead states loses all its transitions to the pruning itself
+\*  and stays reachable -- found when the families degen and finaldeadend were added to MC_Solver)
 OnlyUnreachableCleared ==
     pc \in {"clearing", "conditioned"} =>
-        \A s \in 1..desc.n : (Len(nodes[s]) = 0 /\ Len(desc.tr[s]) > 0 /\ desc.owner[s] # P1)
-                                 => s \notin ReachDom(Working)
+        LET Gc == CondGame(desc, prob, rstrat, prune)
+        IN  \A s \in 1..desc.n : (Len(nodes[s]) = 0 /\ Len(Gc.tr[s]) > 0 /\ desc.owner[s] # P1)
+                                     => s \notin ReachDom(Working)
 
 \* C06 / C02: conditioning a stopping game yields a game that is stopping on
 \* the part the rewards are claimed for
@@ -189,8 +193,10 @@ StoppingPreserved ==
     (pc = "conditioned" /\ orc.stopping) => ro.ok
 
 \* with pruning every state the rewards are claimed for has positive value
+\* (for stopping inputs: a final state owned by Player 2 that is not absorbing may keep a
+\*  transition into a dead state, which then is reachable -- family degen)
 DomPositive ==
-    (pc = "conditioned" /\ prune) => ReachDom(Working) \cap orc.zero = {}
+    (pc = "conditioned" /\ prune /\ orc.stopping) => ReachDom(Working) \cap orc.zero = {}
 
 \* C05: final strategies only use reachability-optimal actions
 FinalSubsetOfReach ==
